@@ -856,10 +856,13 @@ let cmd_tconf () =
 
 (* ---------- linear pipelines as nets of component models (Chain.v / NetDriver.v) ---------- *)
 
-(* "tk:2(fl:2:0(mp:1:1(fi:1,2,3)))" -> [from_iter; map; filter; take] (source first); None if not linear *)
-let parse_chain (t : string) : spec list option =
+(* "cc(tk:2(fi:1,2,3);mg(fi:4;mp:1:1(fi:5)))" -> nodes (children before parents, root last) and edges
+   (child, parent, port); None if the tree uses a node kind that has no model here (cb, fm) *)
+let parse_tree (t : string) : (spec list * ((nat * nat) * nat) list * int) option =
   let n = String.length t in
   let pos = ref 0 in
+  let nodes = ref [] and edges = ref [] and count = ref 0 in
+  let ok = ref true in
   let peek () = if !pos < n then t.[!pos] else '\000' in
   let ident () =
     let st = !pos in
@@ -874,32 +877,48 @@ let parse_chain (t : string) : spec list option =
       out := String.sub t st (!pos - st) :: !out
     done;
     List.rev !out in
-  let rec expr () : spec list option =
+  let add sp = nodes := sp :: !nodes; let i = !count in incr count; i in
+  let rec expr () : int =
     let id = ident () in
     let a = args () in
     let num k = try int_of_string (List.nth a k) with _ -> 0 in
-    let child () =
+    let children () =
+      let out = ref [] in
       if peek () = '(' then begin
         incr pos;
-        let r = expr () in
-        if peek () = ')' then (incr pos; r) else None
-      end else None in
-    let over st = match child () with Some l -> Some (l @ [st]) | None -> None in
+        let continue = ref true in
+        while !continue do
+          out := expr () :: !out;
+          if peek () = ';' then incr pos else continue := false
+        done;
+        if peek () = ')' then incr pos else ok := false
+      end;
+      List.rev !out in
+    let unary sp =
+      match children () with
+      | [c] -> let me = add sp in edges := ((nat_of_int c, nat_of_int me), O) :: !edges; me
+      | _ -> ok := false; add sp in
+    let nary mk =
+      let cs = children () in
+      let me = add (mk (nat_of_int (List.length cs))) in
+      List.iteri (fun k c -> edges := ((nat_of_int c, nat_of_int me), nat_of_int k) :: !edges) cs;
+      me in
     match id with
-    | "fi" -> Some [SpFromIter (List.map nat_of_int (parse_list (try List.nth a 0 with _ -> "-")), None)]
-    | "mp" -> over (SpMap (nat_of_int (num 0), nat_of_int (num 1)))
-    | "fl" -> over (SpFilter (nat_of_int (max 1 (num 0)), nat_of_int (num 1)))
-    | "tk" -> over (SpTake (nat_of_int (num 0)))
-    | "sk" -> over (SpSkip (nat_of_int (num 0)))
-    | "sc" -> over (SpScan (nat_of_int (num 0), nat_of_int (num 1)))
-    | _ -> None in
-  match expr () with
-  | Some l when !pos = n -> Some l
-  | _ -> None
+    | "fi" -> add (SpFromIter (List.map nat_of_int (parse_list (try List.nth a 0 with _ -> "-")), None))
+    | "mp" -> unary (SpMap (nat_of_int (num 0), nat_of_int (num 1)))
+    | "fl" -> unary (SpFilter (nat_of_int (max 1 (num 0)), nat_of_int (num 1)))
+    | "tk" -> unary (SpTake (nat_of_int (num 0)))
+    | "sk" -> unary (SpSkip (nat_of_int (num 0)))
+    | "sc" -> unary (SpScan (nat_of_int (num 0), nat_of_int (num 1)))
+    | "cc" -> nary (fun k -> SpConcat k)
+    | "mg" -> nary (fun k -> SpMerge k)
+    | _ -> ok := false; add SpForEach in
+  let root = expr () in
+  if !ok && !pos = n then Some (List.rev !nodes, List.rev !edges, root) else None
 
 let chain_fuel = nat_of_int 20000
 
-(* model of a linear tree script: the sink's view of the net run *)
+(* model of an operator-tree script: the sink's view of the net run *)
 let cmd_chainrun () =
   try
     while true do
@@ -910,54 +929,59 @@ let cmd_chainrun () =
           match String.index_opt t '=' with
           | Some i -> (String.sub t 0 i, String.sub t (i + 1) (String.length t - i - 1))
           | None -> (t, "")) (tokens hs) in
-        match parse_chain (get kv "tree" "fi:-") with
-        | None -> print_endline "NOTLINEAR"
-        | Some sps ->
-            let net = ref (chain_net sps) in
+        match parse_tree (get kv "tree" "fi:-") with
+        | None -> print_endline "NOMODEL"
+        | Some (sps, es, root) ->
+            let rootn = nat_of_int root in
+            let net = ref (tree_net sps) in
             List.iter (fun t ->
               let (_, m) = parse_move t in
-              let (n', _) = chain_step chain_fuel !net m in
+              let (n', _) = tree_step es rootn chain_fuel !net m in
               net := n') (tokens ms);
-            print_string (String.concat " " (List.map str_event (chain_trace !net)));
+            print_string (String.concat " " (List.map str_event (tree_trace rootn !net)));
             print_string " || ";
-            print_endline (String.concat " " (List.map str_viol (chain_viols !net)))
+            print_endline (String.concat " " (List.map str_viol (tree_viols rootn !net)))
       end
     done
   with End_of_file -> ()
 
-let gen_chain_tree () : string =
-  let l = rand 5 in
-  let leaf = Printf.sprintf "fi:%s" (if l = 0 then "-" else String.concat "," (List.init l (fun _ -> string_of_int (rand 10)))) in
-  let k = rand 5 in
-  let rec wrap k inner =
-    if k = 0 then inner else
-    let st = match rand 5 with
-      | 0 -> Printf.sprintf "mp:%d:%d" (1 + rand 2) (rand 3)
-      | 1 -> let m = 1 + rand 3 in Printf.sprintf "fl:%d:%d" m (rand m)
-      | 2 -> Printf.sprintf "tk:%d" (1 + rand 3)
-      | 3 -> Printf.sprintf "sk:%d" (rand 3)
-      | _ -> Printf.sprintf "sc:%d:%d" (rand 2) (rand 3) in
-    wrap (k - 1) (Printf.sprintf "%s(%s)" st inner) in
-  wrap k leaf
+let rec gen_model_tree (depth : int) : string =
+  let leaf () =
+    let l = rand 4 in
+    Printf.sprintf "fi:%s" (if l = 0 then "-" else String.concat "," (List.init l (fun _ -> string_of_int (rand 10)))) in
+  if depth <= 0 then leaf ()
+  else
+    let sub () = gen_model_tree (depth - 1 - rand 2) in
+    match rand 9 with
+    | 0 -> leaf ()
+    | 1 -> Printf.sprintf "mp:%d:%d(%s)" (1 + rand 2) (rand 3) (sub ())
+    | 2 -> let m = 1 + rand 3 in Printf.sprintf "fl:%d:%d(%s)" m (rand m) (sub ())
+    | 3 -> Printf.sprintf "tk:%d(%s)" (1 + rand 3) (sub ())
+    | 4 -> Printf.sprintf "sk:%d(%s)" (rand 3) (sub ())
+    | 5 -> Printf.sprintf "sc:%d:%d(%s)" (rand 2) (rand 3) (sub ())
+    | 6 | 7 -> let k = 1 + rand 3 in Printf.sprintf "cc(%s)" (String.concat ";" (List.init k (fun _ -> sub ())))
+    | _ -> let k = 1 + rand 3 in Printf.sprintf "mg(%s)" (String.concat ";" (List.init k (fun _ -> sub ())))
 
-(* random linear pipelines with sink scripts every move of which is enabled in the net model *)
+(* random operator trees (from_iter leaves; map, filter, scan, take, skip, concat!, merge! nodes) with sink
+   scripts every move of which is enabled in the net model *)
 let cmd_genchain seed count =
   rng_state := Int64.of_int seed;
   for _ = 1 to count do
-    let t = gen_chain_tree () in
-    match parse_chain t with
+    let t = gen_model_tree (1 + rand 4) in
+    match parse_tree t with
     | None -> ()
-    | Some sps ->
-        let net = ref (chain_net sps) in
+    | Some (sps, es, root) ->
+        let rootn = nat_of_int root in
+        let net = ref (tree_net sps) in
         let moves = ref [] in
-        let n = 3 + rand 16 in
+        let n = 3 + rand 18 in
         for k = 1 to n do
           let cands = [| "S0"; "P0"; "P0"; "P0"; "r"; "r"; "T0"; "E0/100" |] in
           let tok = if k = 1 then "S0" else cands.(rand (Array.length cands)) in
           let tok = if tok = "T0" && rand 3 <> 0 then "P0" else tok in
           let tok = if tok = "E0/100" && rand 4 <> 0 then "r" else tok in
           let (_, m) = parse_move tok in
-          let (n', ok) = chain_step chain_fuel !net m in
+          let (n', ok) = tree_step es rootn chain_fuel !net m in
           if ok then (net := n'; moves := tok :: !moves)
         done;
         Printf.printf "op=tree tree=%s env=std subs=1 chain=1 | %s\n" t (String.concat " " (List.rev !moves))
